@@ -56,6 +56,13 @@ func scenarios(c *vlib.Ctx) []*slib.Scn {
 			}
 		}
 	}
+	// another thread holds the module's read lock at some moment of the stop
+	for _, trig := range []string{"shutdown", "disable"} {
+		for _, items := range [][]string{nil, {"worker"}, {"mt-signal"}, {"task"}, {"hook"}} {
+			add(modules.C05Params{Graph: "single", Items: items, ItemPts: 1, StopFn: "plain", Trigger: trig, Holder: true}, bound)
+			add(modules.C05Params{Graph: "single", Items: items, ItemPts: 0, StopFn: "none", Trigger: trig, Holder: true}, bound)
+		}
+	}
 	// a task that is queued right before the stop is triggered: it is somewhere between the queue and its execution when the stop begins
 	for _, trig := range []string{"shutdown", "disable"} {
 		for _, graph := range []string{"single", "chain"} {
